@@ -220,13 +220,13 @@ RULE_ADDENDA = {
     "C01": "header fields with boundary patterns (all-zero / all-ones xid, secs, flags; op 0/1/2/255); option-area sweep: one option of every length 0..130 and 240..270 next to a message type",
     "C02": "edge-aware numeric fields (0, 1, 0x7f../0x80.., max); byte strings with lengths around 63/64, 127/128/130, 253-257; names of exactly 250..253 octets; special address forms (IPv4-mapped, zero, loopback, link-local, multicast); sub-option codes that collide with top-level codes; decoded-then-edited names (another name, another case, another order, appended) must round-trip",
     "C04": "whole-cookie variants (zero, all ones, byte-swapped, partially zero) on 240-, 300-octet and full packets",
-    "C03": "structure-aware malformation: every known DHCPv6 option type with its value cut at every position, lengthened by 1..3 octets and with every inner 16-bit field perturbed (+1, -1, +256, 0xffff) under intact outer framing, alone (ParseOption), in a message, inside an IA_NA and inside a relay message, observers run on every accepted one; every DHCPv4 option that has a typed reader with its value cut at every position in an otherwise valid packet, all observers run",
+    "C03": "raw frames swept: IHL 0..15 x 18 frame lengths x 12 total-length values (0, 1, around header and frame length, 0xffff) x 6 UDP-length values; structure-aware malformation: every known DHCPv6 option type with its value cut at every position, lengthened by 1..3 octets and with every inner 16-bit field perturbed (+1, -1, +256, 0xffff) under intact outer framing, alone (ParseOption), in a message, inside an IA_NA and inside a relay message, observers run on every accepted one; every DHCPv4 option that has a typed reader with its value cut at every position in an otherwise valid packet, all observers run",
     "C05": "every known option type, and every name field over a small alphabet of lengths / pointers / letters in options 24, 39, 56/3, preceded and followed by an option whose code has a non-zero high octet (neighbour independence); no entry point may modify its input (checked on every case of every property); names of dotted length 250..256 and 319 ended by a zero, by the end of the value, by another name or lengthened by a compression pointer, in options 24, 39, 56/3 alone, in a message and inside an IA_NA; same value generators as C02",
     "C06": "text-like values with a tail or head a decoder might trim (runs of NUL, blanks, line ends, dots, slashes); durations dumped exactly (values no 32-bit field can carry never compare equal); known finding F12 input and its non-overflowing neighbour",
     "C07": "independent decoder also compares op/htype/hops/xid/secs/flags, the four addresses, chaddr (16 octets), sname/file and their zero fill; packets built through the typed constructors keep their option values while other packets are built and encoded",
     "C08": "non-canonical DHCPv4 wire inputs (repeated codes, zero-length first instances); two encodings of one value held at once; an earlier output vs a later edit+encoding; outputs of different values tracked across encodings",
     "C09": "pointer chains (each name one label plus a pointer to the start of the previous name), pointers to pointers, self and mutual pointers, bare pointers past the 14-bit range; size ladder 64,96,128,...,65507; dual-reading label regions with backward and forward pointer fans; every option type with a 0xff run as value; decoded names checked against the proved bound on every run; every container type (IA_NA, IA_PD, IA_TA, IA address, IA prefix, vendor options) nested to the maximum with an unassigned-code leaf per level; besides the reflective size, the live-heap difference with only the decoded value kept alive (collector-measured, so a short view that pins a large backing array is charged for the array): <= 300 n + 65536",
-    "C10": "id reused at once after a call that returned with a full buffer and a datagram parked in the receive loop (60 / 1500 rounds per client); non-BOOTREPLY opcodes 0/3/0x82/0xff; foreign / empty / shorter / longer chaddr; datagrams of realistic length; optional dropped-packet and debug logging; held-matcher scenarios (all n<=7 x first acceptable position) compared with the hand-over machine; 600 rounds of 4..16 simultaneous callers with one id; every scenario under a 20 s real-time watchdog",
+    "C10": "12 datagrams for a matcher-held call (more than the 7 that fit in flight), first acceptable at positions 8..11, with GOMAXPROCS 1, 2 and default (12 / 200 rounds per client); id reused at once after a call that returned with a full buffer and a datagram parked in the receive loop (60 / 1500 rounds per client); non-BOOTREPLY opcodes 0/3/0x82/0xff; foreign / empty / shorter / longer chaddr; datagrams of realistic length; optional dropped-packet and debug logging; held-matcher scenarios (all n<=7 x first acceptable position) compared with the hand-over machine; 600 rounds of 4..16 simultaneous callers with one id; every scenario under a 20 s real-time watchdog",
     "C11": "contexts ended by cancel or by their own deadline; stray datagrams (other id); connections whose Close reports an error; id reuse after every kind of ending (timeout, failed write, cancel, response); 0..2 earlier unanswered calls on the same client",
     "C12": "0..2 companion calls overlapping the observed one on the same client (started half a timeout before / after it); requested destinations incl. unicast, other port, IPv6 zone; three logger configurations; requests whose option request list is not in code order; 0..2 earlier unanswered calls on the same client; thorough: timeouts 1 ms .. 120 s, tries 0..9",
     "C13": "scripted replies carry optional extra options (DHCPv4 80 rapid commit, 51, 58, 59, 61, 82, 116, 52; DHCPv6 14 rapid commit, 7, 12, 20, 13); OFFER address differs from the ACK's; random siaddr/giaddr; wrong-opcode and wrong-hlen replies; IA_NA with 0..3 addresses and a status code; late answers to the SOLICIT during the REQUEST phase",
